@@ -623,6 +623,31 @@ func (w *Wiretap) newConn(addr string, dcid []byte, ver uint32) *TapConn {
 	return c
 }
 
+// tapSeal1RTT builds a protected 1-RTT packet as the endpoint sending in direction dir would (current key phase, 4-byte packet
+// number), from the secrets the observer holds: the simulator's way of playing a peer that frames its packets differently
+// from the in-tree sender. The caller holds w.mu.
+func (c *TapConn) tapSeal1RTT(dir int, dcid []byte, pn uint64, payload []byte) []byte {
+	if len(c.appKeys[dir]) == 0 {
+		return nil
+	}
+	k := c.appKeys[dir][c.phase[dir]]
+	hdr := []byte{0x40 | byte(c.phase[dir]&1)<<2 | 3}
+	hdr = append(hdr, dcid...)
+	pnOff := len(hdr)
+	hdr = append(hdr, byte(pn>>24), byte(pn>>16), byte(pn>>8), byte(pn))
+	nonce := append([]byte{}, k.iv...)
+	for i := 0; i < 8; i++ {
+		nonce[len(nonce)-1-i] ^= byte(pn >> (8 * i))
+	}
+	pkt := append(append([]byte{}, hdr...), k.aead.Seal(nil, nonce, payload, hdr)...)
+	m := k.mask(pkt[pnOff+4 : pnOff+20])
+	pkt[0] ^= m[0] & 0x1f
+	for i := 0; i < 4; i++ {
+		pkt[pnOff+i] ^= m[1+i]
+	}
+	return pkt
+}
+
 // shadowOf returns (creating it if needed) the shadow of c that the server runs under source ID scid.
 func (w *Wiretap) shadowOf(c *TapConn, clientAddr string, scid []byte) *TapConn {
 	if sh := c.shadows[string(scid)]; sh != nil {
